@@ -75,6 +75,9 @@ B('C09.ldap-tag', ['C09'], [(P + 'tls/ldap.py', "{'implicit': (LDAPClass.APPLICA
 B('C02.drop-unicode-handler', ['C02'], [(P + 'common/parse.py',
   "        except UnicodeError as e:\n            six.raise_from(InvalidValue(value, converter, name), e)\n        except ValueError as e:\n            six.raise_from(InvalidValue(value, converter, name), e)\n\n        return value, parsable_length",
   "        except KeyError as e:\n            six.raise_from(InvalidValue(value, converter, name), e)\n\n        return value, parsable_length")])
+B('C02.date-decimal-error-unhandled', ['C02'], [(P + 'common/parse.py', "        except (ValueError, OverflowError, decimal.InvalidOperation) as e:", "        except (ValueError, OverflowError) as e:")], mention='InvalidOperation')
+N('benign.date-arithmetic-error-handled', [(P + 'common/parse.py', "        except (ValueError, OverflowError, decimal.InvalidOperation) as e:", "        except (ValueError, ArithmeticError) as e:")])
+B('C02.lazy-certificate-property-outside-handler', ['C02'], [(P + 'ssh/key.py', "            try:\n                key_type = public_key.key_type\n            except ValueError as e:\n                six.raise_from(InvalidValue(parsable, cls, 'public_key'), e)\n", "            key_type = public_key.key_type\n")], mention='lazy.key_type')
 B('C02.unsupported-width', ['C02'], [(P + 'tls/extension.py', "        parser.parse_numeric('record_size_limit', 2)", "        parser.parse_numeric('record_size_limit', 5)")], props=['C02'])
 B('C02.raw-index', ['C02'], [(P + 'tls/extension.py', "        if parser['extension_data']:\n            raise InvalidValue(parser['extension_data'], cls)",
                              "        if parser['extension_data'][0]:\n            raise InvalidValue(parser['extension_data'], cls)")])
